@@ -7,6 +7,7 @@
 //!   ab:e:n:s   add_template        (borrowed name/source; n = name index, s = source index)
 //!   ao:e:n:s   add_template_owned
 //!   rm:e:n     remove_template          cl:e   clear_templates
+//!   rx:e:p     remove_template("A" | " a"): removes nothing, names are never normalised
 //!   sl:e:l     set_loader(loader table l, 1..=6; table 6 answers according to the global phase)
 //!   fl:v       the outside world changes: loader table 6 now answers with phase v (0: fails / broken
 //!              source / missing, 1: fine) — an impure loader
@@ -482,7 +483,7 @@ fn src_code(src: &str) -> String {
 
 fn render_outcome(r: Result<String, Error>) -> String {
     match r {
-        Ok(s) => format!("ok:{}", s),
+        Ok(s) => format!("ok:{}", s.replace('\\', "\\\\").replace('\n', "\\n").replace('\t', "\\t").replace('\r', "\\r")),
         Result::Err(e) => {
             // with debug on the error carries the template source for `display_debug_info`
             let dbg = !e.display_debug_info().to_string().is_empty();
@@ -765,6 +766,7 @@ fn junk(env: &Environment<'static>, k: usize) -> String {
 enum Op {
     Add { owned: bool, e: usize, n: usize, s: usize },
     Rm { e: usize, n: usize },
+    RmProbe { e: usize, p: usize },
     Cl { e: usize },
     Sl { e: usize, l: usize },
     Phase { v: usize },
@@ -796,6 +798,7 @@ fn op_token(op: &Op, log: Option<&[usize]>) -> String {
     match op {
         Op::Add { owned, e, n, s } => format!("{}:{}:{}:{}", if *owned { "ao" } else { "ab" }, e, n, s),
         Op::Rm { e, n } => format!("rm:{}:{}", e, n),
+        Op::RmProbe { e, p } => format!("rx:{}:{}", e, p),
         Op::Cl { e } => format!("cl:{}", e),
         Op::Sl { e, l } => format!("sl:{}:{}", e, l),
         Op::Phase { v } => format!("fl:{}", v),
@@ -825,6 +828,7 @@ fn parse_op(tok: &str) -> Option<Op> {
     Some(match f[0] {
         "ab" | "ao" => Op::Add { owned: f[0] == "ao", e: num(1)?, n: name(2)?, s: num(3).filter(|s| *s < NS)? },
         "rm" => Op::Rm { e: num(1)?, n: name(2)? },
+        "rx" => Op::RmProbe { e: num(1)?, p: num(2).filter(|p| *p < 2)? },
         "cl" => Op::Cl { e: num(1)? },
         "sl" => Op::Sl { e: num(1)?, l: num(2).filter(|l| (1..=6).contains(l))? },
         "fl" => Op::Phase { v: num(1)?.min(1) },
@@ -904,8 +908,12 @@ fn gen_history(rng: &mut Rng, with_threads: bool) -> Vec<Op> {
             gens[e].last.insert(n, s);
             Op::Add { owned: rng.chance(3, 5), e, n, s }
         } else if w < t[1] {
-            gens[e].last.remove(&n);
-            Op::Rm { e, n }
+            if rng.chance(1, 6) {
+                Op::RmProbe { e, p: rng.below(2) as usize }
+            } else {
+                gens[e].last.remove(&n);
+                Op::Rm { e, n }
+            }
         } else if w < t[2] {
             gens[e].last.clear();
             Op::Cl { e }
@@ -1039,7 +1047,7 @@ fn threads_phase(live: &Live, k: u64, frng: &mut Rng) -> (Option<String>, BTreeM
 
 fn op_target(op: &Op) -> Option<usize> {
     match op {
-        Op::Add { e, .. } | Op::Rm { e, .. } | Op::Cl { e } | Op::Sl { e, .. } | Op::RegAdd { e, .. } | Op::RegRm { e, .. }
+        Op::Add { e, .. } | Op::Rm { e, .. } | Op::RmProbe { e, .. } | Op::Cl { e } | Op::Sl { e, .. } | Op::RegAdd { e, .. } | Op::RegRm { e, .. }
         | Op::SetLt { e, .. } | Op::SetRt { e, .. } | Op::Clone { e } | Op::Render { e, .. } | Op::Handle { e, .. }
         | Op::Junk { e, .. } | Op::Threads { e, .. } => Some(*e),
         Op::Phase { .. } => None,
@@ -1100,6 +1108,11 @@ fn run_history(ops: &[Op], hseed: u64) -> (String, String, String, String) {
                 l.env.remove_template(NAMES[*n]);
                 l.spec.contents.remove(n);
                 l.spec.pinned.remove(n);
+                "ok".into()
+            }
+            Op::RmProbe { e, p } => {
+                // removing "A" or " a" removes nothing: names are never normalised
+                envs[*e].env.remove_template(PROBE_NAMES[*p]);
                 "ok".into()
             }
             Op::Cl { e } => {
